@@ -2,9 +2,9 @@
    Model: Py.rich (CPython rich comparison on the value shapes inside Version._key, all six operators modelled separately),
    Py.key (_cmpkey verbatim), SpecModel.Version (regex scanner + __init__).  Spec: C01.pep440_cmp (the order of the statement).
    This file holds statements only; every proof is `exact <lemma>` or a few lines over lemmas proved elsewhere. *)
-From Coq Require Import List Arith NArith Bool Lia.
+From Coq Require Import List Arith NArith Bool Lia Permutation.
 Import ListNotations.
-Require Import S1 VParse Py VMeaning VCmp SpecModel SpecOps Order Canon SpecEq VWf VKeyEq.
+Require Import S1 VParse Py VMeaning VCmp SpecModel SpecOps Order Canon SpecEq VWf VKeyEq SortUnique.
 Open Scope N_scope.
 
 (* the six Python operators on two parsed strings *)
@@ -75,6 +75,20 @@ Print Assumptions C01_hash_agrees.
 Theorem C01_release_zero_padded r1 r2 : lex (strip r1) (strip r2) = padcmp r1 r2.
 Proof. rewrite !strip_eq. exact (strip_pad r1 r2). Qed.
 Print Assumptions C01_release_zero_padded.
+
+(* 8. sorting gives one answer whatever the input order or spelling: two ascending arrangements (no element greater than its successor -
+      what any correct sort returns) of lists that are permutations of each other up to equal versions (other spellings, trailing zeros)
+      agree position by position up to ==.  Independent of the sorting algorithm. *)
+Theorem C01_sorting_gives_one_answer (l1 l2 m m' : list version) :
+  ascending pep440_cmp l1 -> ascending pep440_cmp l2 ->
+  Permutation l1 m -> Forall2 (fun a b => pep440_cmp a b = Eq) m m' -> Permutation m' l2 ->
+  Forall2 (fun a b => pep440_cmp a b = Eq) l1 l2.
+Proof.
+  intros A1 A2 P1 E P2. apply (sorted_arrangements_agree pep440_cmp pep440_cmp_ok l1 l2 A1 A2).
+  eapply same_counts_trans; [apply perm_same_counts; exact P1|].
+  eapply same_counts_trans; [apply (equiv_same_counts pep440_cmp pep440_cmp_ok); exact E|]. apply perm_same_counts; exact P2.
+Qed.
+Print Assumptions C01_sorting_gives_one_answer.
 
 (* non-vacuity: two accepted spellings of equal versions, and a strict chain  1.0.dev1 < 1.0a1 < 1.0 < 1.0+a < 1.0.post0 *)
 Definition nonvac_check : bool :=
